@@ -20,6 +20,7 @@ type c10Case struct {
 	E1   string `json:"e1"`
 	E2   string `json:"e2"`
 	Op   string `json:"op,omitempty"`
+	Set  string `json:"atom_set,omitempty"`
 }
 
 var c10Subsets = func() [][]string {
@@ -122,14 +123,22 @@ func c10Compare(cs c10Case) string {
 // (the bare id) shows up as a compositionality failure here
 var c10RichAtoms = []string{"GPL-2.0-only", "GPL-2.0-only WITH Classpath-exception-2.0", "Apache-1.0+", "Apache-1.0", "LicenseRef-a", "LicenseRef-A"}
 
+// a second atom set for the same sweep: one LicenseRef name plain, under two DocumentRefs, in another case, and named like a listed id
+var c10RefAtoms = []string{"LicenseRef-a", "DocumentRef-d:LicenseRef-a", "DocumentRef-e:LicenseRef-a", "LicenseRef-A", "MIT", "LicenseRef-MIT"}
+
 const c10RichBad = ^uint64(0)
 
 // c10RichObs: bit m-1 = Satisfies(expr, subset m of c10RichAtoms), m = 1..63; all ones = unusable.
-func c10RichObs(expr string) uint64 {
+func c10RichObs(expr string) uint64 { return c10AtomObs(c10CurAtoms, expr) }
+
+// c10CurAtoms is the atom set the rich compositionality sweep is currently running over.
+var c10CurAtoms = c10RichAtoms
+
+func c10AtomObs(atoms []string, expr string) uint64 {
 	var v uint64
-	for m := 1; m < 1<<uint(len(c10RichAtoms)); m++ {
+	for m := 1; m < 1<<uint(len(atoms)); m++ {
 		var al []string
-		for i, a := range c10RichAtoms {
+		for i, a := range atoms {
 			if m&(1<<uint(i)) != 0 {
 				al = append(al, a)
 			}
@@ -157,10 +166,10 @@ func c10RichCompare(cs c10Case) string {
 		want = a | b
 	}
 	if o != want {
-		for m := 1; m < 1<<uint(len(c10RichAtoms)); m++ {
+		for m := 1; m < 1<<uint(len(c10CurAtoms)); m++ {
 			if (o^want)&(1<<uint(m-1)) != 0 {
 				var al []string
-				for i, x := range c10RichAtoms {
+				for i, x := range c10CurAtoms {
 					if m&(1<<uint(i)) != 0 {
 						al = append(al, x)
 					}
@@ -179,6 +188,10 @@ func init() {
 			return "bad case"
 		}
 		if cs.Kind == "compose-rich" {
+			c10CurAtoms = c10RichAtoms
+			if cs.Set == "refs" {
+				c10CurAtoms = c10RefAtoms
+			}
 			return c10RichCompare(cs)
 		}
 		return c10Compare(cs)
@@ -372,61 +385,67 @@ func c10Run(c *Ctx) {
 	}
 
 	// compositionality over terms that share an id but differ in '+' / WITH
-	rich := TreesUpTo(2, len(c10RichAtoms))
-	var res []string
-	for n := 1; n <= 2; n++ {
-		for _, t := range rich[n] {
-			res = append(res, t.RenderMin(c10RichAtoms))
+	for _, set := range []struct {
+		name  string
+		atoms []string
+	}{{"modifiers", c10RichAtoms}, {"refs", c10RefAtoms}} {
+		c10CurAtoms = set.atoms
+		rich := TreesUpTo(2, len(set.atoms))
+		var res []string
+		for n := 1; n <= 2; n++ {
+			for _, t := range rich[n] {
+				res = append(res, t.RenderMin(set.atoms))
+			}
 		}
-	}
-	c.Bound("compositionality_rich", map[string]any{"atoms": c10RichAtoms, "operands_max_leaves": 2, "operands": len(res), "allowed": "all 63 non-empty subsets of the atoms"})
-	robs := make([]uint64, len(res))
-	rhave := make([]bool, len(res))
-	rget := func(i int) uint64 {
-		if !rhave[i] {
-			robs[i], rhave[i] = c10RichObs(res[i]), true
+		c.Bound("compositionality_"+set.name, map[string]any{"atoms": set.atoms, "operands_max_leaves": 2, "operands": len(res), "allowed": "all 63 non-empty subsets of the atoms"})
+		robs := make([]uint64, len(res))
+		rhave := make([]bool, len(res))
+		rget := func(i int) uint64 {
+			if !rhave[i] {
+				robs[i], rhave[i] = c10RichObs(res[i]), true
+			}
+			return robs[i]
 		}
-		return robs[i]
-	}
-	for i := range res {
-		for j := range res {
-			pi++
-			if !c.Mine(pi) {
-				continue
-			}
-			if c.Expired() {
-				return
-			}
-			a, b := rget(i), rget(j)
-			if a == c10RichBad || b == c10RichBad {
-				c.Inc("skipped_panic")
-				continue
-			}
-			for _, op := range []string{"AND", "OR"} {
-				text := "(" + res[i] + ") " + op + " (" + res[j] + ")"
-				o := c10RichObs(text)
-				c.Inc("states")
-				c.Add("transitions", 63)
-				c.Inc("evaluations")
-				if o == c10RichBad {
+		for i := range res {
+			for j := range res {
+				pi++
+				if !c.Mine(pi) {
+					continue
+				}
+				if c.Expired() {
+					return
+				}
+				a, b := rget(i), rget(j)
+				if a == c10RichBad || b == c10RichBad {
 					c.Inc("skipped_panic")
 					continue
 				}
-				c.Add("traces", 63)
-				want := a & b
-				if op == "OR" {
-					want = a | b
-				}
-				if want != 0 && want != 1<<63-1 {
-					c.Inc("nontrivial")
-				}
-				if o != want {
-					cs := c10Case{Kind: "compose-rich", E1: res[i], E2: res[j], Op: op}
-					msg := c10RichCompare(cs)
-					if msg == "" {
-						msg = "compositionality violated (not reproduced on re-check)"
+				for _, op := range []string{"AND", "OR"} {
+					text := "(" + res[i] + ") " + op + " (" + res[j] + ")"
+					o := c10RichObs(text)
+					c.Inc("states")
+					c.Add("transitions", 63)
+					c.Inc("evaluations")
+					if o == c10RichBad {
+						c.Inc("skipped_panic")
+						continue
 					}
-					c.Report(Violation{Kind: "c10.case", Class: "compose-rich:" + op, Key: text, Msg: msg, Size: len(text), Case: mustJSON(cs)})
+					c.Add("traces", 63)
+					want := a & b
+					if op == "OR" {
+						want = a | b
+					}
+					if want != 0 && want != 1<<uint(1<<uint(len(set.atoms))-1)-1 {
+						c.Inc("nontrivial")
+					}
+					if o != want {
+						cs := c10Case{Kind: "compose-rich", E1: res[i], E2: res[j], Op: op, Set: set.name}
+						msg := c10RichCompare(cs)
+						if msg == "" {
+							msg = "compositionality violated (not reproduced on re-check)"
+						}
+						c.Report(Violation{Kind: "c10.case", Class: "compose-" + set.name + ":" + op, Key: set.name + ":" + text, Msg: msg, Size: len(text), Case: mustJSON(cs)})
+					}
 				}
 			}
 		}
